@@ -8,7 +8,7 @@ COMMON_ASSUME = [
 SOURCE_COMMITS = []
 
 PENDING = "check not built yet in this round (machinery under construction; see DESIGN.md section 4 for the planned generator and oracle)"
-NOT_APPLICABLE = {p: PENDING for p in ["C01","C02","C03","C04","C05","C06","C11","C12","C13","C14","C15","C16","C17","C18","C19"]}
+NOT_APPLICABLE = {p: PENDING for p in ["C01","C02","C03","C04","C05","C06","C13","C14","C15","C16","C17","C18","C19"]}
 
 PROPS = {
     "C07": dict(
@@ -46,5 +46,23 @@ PROPS = {
         level_note="Trusted: the generator's span bookkeeping (documents are cross-checked with encoding/json.Valid); keys and deciding values are spelled literally as the property states.",
         rule="rapid: object of 0-6 members: deciding (\"type\":<9 names>; \"log\":{fillers,version|creator|entries:any value,fillers}; \"asset\":{fillers,\"version\":\"1.0\"|\"2.0\",fillers}), look-alikes, arbitrary siblings (depth<=3); limit in {0,len,len+1, random cut snapped out of deciding spans}. Expected = geo if a geo span ends <= L, else har, else gltf, else application/json; String() and Extension() compared. Non-trivial = deciding member preceded by a non-empty container sibling, or >=2 deciding kinds, or a look-alike present, or a sibling with a non-empty container; distinct by hash(doc,limit).",
         assumptions=COMMON_ASSUME + ["cuts strictly inside a deciding member are outside the property's domain and are counted as excluded"],
+    ),
+    "C11": dict(
+        shards=dict(quick=4, thorough=16),
+        floor=dict(quick=100000, thorough=1000000),
+        technique="exhaustive enumeration over a 24-symbol byte-class alphabet (bounded length) plus real multilingual text cut at every limit and rapid-generated text, against a reference predicate built on unicode/utf8",
+        level_text="Exploration, exhaustive in a small scope: every string over a byte-class alphabet (ASCII letter, SP, LF, DEL, ESC; UTF-8 leads C0 C3 E0 E2 ED F0 F4 F5; continuations 80 85 9F A0 A9 BF; FF FE EF BB; NUL) up to length 5 (8.3M strings; length 6 = 199M in the thorough tier) is passed to charset.FromPlain and judged by an oracle written from the property (strict UTF-8 with an optional cut-off final sequence, C1 range rule, BOM table); short strings and a sample of longer ones also go through Detect. The interesting cases are positional (which rune is last, where the limit cuts it), and all positions up to 5-6 byte classes are covered; real texts in several scripts and encodings are cut at every limit.",
+        level_note="Trusted: unicode/utf8 (Valid, FullRune) as the definition of UTF-8; the oracle takes the weaker reading where the statement is silent (empty input; FF FE 00 00 may be read as UTF-32LE or UTF-16LE; no claim when a header is ASCII plus a cut-off lead byte).",
+        rule="enum: all strings over the 24-symbol alphabet up to length 5 (quick) / 6 (thorough) that are BOM-led or free of binary-data bytes (others counted as excluded) -> charset.FromPlain; Detect level for length<=3 and every 61st longer string. cuts: 14 real/hostile texts (Greek, Japanese, emoji, Latin-1, CP1252, overlong, surrogate) at every limit through Detect and FromPlain. gen: rapid: texts with 0-2 replaced bytes, UTF-8/Latin piece strings, byte-class strings of length 6-14, boundary-biased limits. Non-trivial = header contains a byte >= 0x80; enum cases are distinct by construction, others by hash(x,limit,via).",
+        assumptions=COMMON_ASSUME + ["domain restricted, as the property states, to headers that start with a BOM or contain no binary-data byte"],
+    ),
+    "C12": dict(
+        shards=dict(quick=4, thorough=16),
+        floor=dict(quick=5000, thorough=50000),
+        technique="grammar/construction-based generation (rapid) of HTML and XML prologues with exactly one charset declaration; expected label known by construction",
+        level_text="Exploration: generated HTML documents (9 start forms, 0-4 prologue pieces incl. comments/scripts/styles/titles holding fake metas and non-declaring metas, one declaring meta in direct or pragma form with every quoting style, attribute order, letter case, whitespace around '=' and tag ending, optional UTF-8 BOM, tails in other encodings) and XML 1.0 declarations (both quote styles, optional white space around '=', optional standalone, decoy encoding= text afterwards) carry known or random RFC 2045 token labels; the limit is drawn from [end of declaration, len+2]. The label and syntax space is open-ended, so it is sampled; the construction guarantees every case is inside the property's domain.",
+        level_note="Trusted: the generator's claim that each document has exactly one declaration a conforming HTML/XML processor would honour; mime.ParseMediaType to read the charset parameter back. Labels exclude & ' ` (HTML would reinterpret them) and free-form labels starting with utf-16.",
+        rule="html: rapid: [BOM] ws start-tag prologue* declaring-meta tail; xml: ws <?xml version eq q encoding eq q [standalone] ?> tail. Checked through Detect at the drawn limit and through charset.FromHTML/FromXML on the examined header. Non-trivial = label other than utf-8, or a fake/decoy declaration present, or BOM present, or white space around '=' in the XML declaration; distinct by hash(doc,limit).",
+        assumptions=COMMON_ASSUME + ["after '<?xml' the generator writes a space (the markup signature requires it); white space is varied everywhere else"],
     ),
 }
